@@ -15,6 +15,7 @@ INVARIANT MidLaw
 INVARIANT ReplaceLaw
 INVARIANT FindLaw
 INVARIANT SubstLaw
+INVARIANT SubstOverlapLaw
 INVARIANT ConcatLaw
 INVARIANT TrimLaw
 INVARIANT IdemLaw
